@@ -626,6 +626,17 @@ func validate(caller string, start, limit uint64, blocks []eth.Block) error {
 	return nil
 }
 
+// checkHash reports an error when a block that already carries a
+// 32 byte hash (from its header or from a previously attached item)
+// is named by an item with a different block hash.
+func checkHash(caller string, b *eth.Block, h []byte) error {
+	if len(b.Header.Hash) == 32 && !bytes.Equal(b.Header.Hash, h) {
+		const tag = "%s: rpc response contains invalid data. block: %d hash: %.4x got: %.4x"
+		return fmt.Errorf(tag, caller, b.Header.Number, []byte(b.Header.Hash), h)
+	}
+	return nil
+}
+
 type headerResp struct {
 	Error       `json:"error"`
 	*eth.Header `json:"result"`
@@ -724,6 +735,9 @@ func (c *Client) receipts(ctx context.Context, url string, bm blockmap, start, l
 		b, ok := bm[blockNum]
 		if !ok {
 			return fmt.Errorf("block not found")
+		}
+		if err := checkHash("eth_getBlockReceipts", b, resps[i].Result[0].BlockHash); err != nil {
+			return err
 		}
 		b.Header.Hash.Write(resps[i].Result[0].BlockHash)
 		for j := range resps[i].Result {
@@ -845,6 +859,10 @@ func (c *Client) logs(ctx context.Context, url string, filter *glf.Filter, bm bl
 			return fmt.Errorf("block not found")
 		}
 		b.Lock()
+		if err := checkHash("eth_getLogs", b, logs[0].BlockHash); err != nil {
+			b.Unlock()
+			return err
+		}
 		b.Header.Hash.Write(logs[0].BlockHash)
 		tx := b.Tx(k.b)
 		tx.PrecompHash.Write(logs[0].TxHash)
@@ -911,6 +929,9 @@ func (c *Client) traces(ctx context.Context, url string, bm blockmap, start, lim
 				const tag = "trace_block traces of different blocks in one response. num=%d first=%d"
 				return fmt.Errorf(tag, res.Result[i].BlockNum, res.Result[0].BlockNum)
 			}
+		}
+		if err := checkHash("trace_block", block, res.Result[0].BlockHash); err != nil {
+			return err
 		}
 		block.Header.Hash.Write(res.Result[0].BlockHash)
 
